@@ -14,6 +14,8 @@ import err_checks
 import alias_checks
 import pre_checks
 import hooks_checks
+import union_checks
+import twin_checks
 
 CORE_A = ["Model/Base.v", "Model/Dispatch.v", "Model/Routing.v", "Model/DispLane.v", "Gen/DispatchSrc.v", "Gen/ConvSrc.v",
           "Proofs/DispatchProofs.v", "Proofs/RoutingProofs.v", "Proofs/SrcObligations.v"]
@@ -29,6 +31,7 @@ def _c07(v, b, tier):
 def _c08(v, b, tier):
     n = 90 * SIZES[tier]
     disp_checks.check_c08(v, b.t1_summary, n, 22 if tier == "quick" else 60)
+    twin_checks.check_c08_twin(v, 150 * SIZES[tier])
 
 
 def _c18(v, b, tier):
@@ -51,6 +54,7 @@ def _c04(v, b, tier):
     conv_checks.check_conv(v, "C04", b.t1_summary, 30 * SIZES[tier])
     cycle_checks.cycle_battery(v, "C04", 150 * SIZES[tier])
     cycle_checks.generic_battery(v, "C04", 60 * SIZES[tier])
+    union_checks.union_battery(v, "C04", 50 * SIZES[tier])
 
 
 def _c09(v, b, tier):
@@ -108,7 +112,10 @@ RULE_CONV = ("worlds = 2 enums + 1-4 generated classes (attrs, frozen attrs, dat
              "used in a random order on converters that live as long as the family; per class 2 values x (unstructure, structure back in both modes, 3 corrupted payloads "
              "+ every single-key deletion) ; PLUS the GENERIC battery (oracle only, Converter): a generic attrs class or dataclass Box[T] with 1-4 TypeVar-typed attributes "
              "(T, List[T], Dict[str, T], Optional[T], Tuple[T, ...]; attrs field converters on 45% of them), used as Box[A] for two A of {int, str, Enum, attrs class, dataclass}, "
-             "as a non-parametrised subclass of Box[A] and as its child; values / expected encodings / conformance from the SUBSTITUTED annotations")
+             "as a non-parametrised subclass of Box[A] and as its child; values / expected encodings / conformance from the SUBSTITUTED annotations ; PLUS the UNION battery "
+             "(oracle only): unions of 2-3 attrs classes / dataclasses, each with a unique required attribute (+ shared, defaulted attributes), optionally one fallback member "
+             "(no attributes, or only shared / defaulted ones), optionally None, members in random order; at top level, in List / Dict / Tuple and as a class attribute; "
+             "both converter classes, both validation modes, valid / mutated / key-deleted / junk payloads")
 
 
 def _conv(prop, base):
@@ -120,6 +127,7 @@ def _conv(prop, base):
             cycle_checks.generic_battery(v, prop, 60 * SIZES[tier])      # generic classes: documented for Converter only
         if prop == "C02":
             pass_checks.check_c02_passthrough(v, 60 * SIZES[tier])
+        union_checks.union_battery(v, prop, 50 * SIZES[tier])
     return run
 
 
